@@ -114,6 +114,20 @@ func (c *Ctx) rpfCall(fd *ast.FuncDecl, p *packages.Package, args []*Val, hooks 
 	return ret.vals, nil
 }
 
+// tryExpr folds e, turning a fold failure into an error value.
+func (r *rpf) tryExpr(e ast.Expr) (v *Val, err error) {
+	defer func() {
+		if x := recover(); x != nil {
+			if re, ok := x.(*rpfErr); ok {
+				err = re
+				return
+			}
+			panic(x)
+		}
+	}()
+	return r.expr(e), nil
+}
+
 // rpfExpr folds one expression under an environment.
 func (c *Ctx) rpfExpr(p *packages.Package, e ast.Expr, env map[types.Object]*Val, hooks *rpf) (v *Val, err error) {
 	r := &rpf{c: c, p: p, env: env}
